@@ -22,6 +22,7 @@ pub mod c11;
 pub mod c12;
 pub mod pattern_model;
 pub mod c13;
+pub mod c15;
 pub mod c16;
 pub mod calendar;
 pub mod c17;
@@ -62,6 +63,7 @@ pub fn dispatch(prop: &str, tier: &str, seed: u64, only: Option<(String, u64)>) 
         "C11" => c11::run(&mut rep),
         "C12" => c12::run(&mut rep),
         "C13" => c13::run(&mut rep),
+        "C15" => c15::run(&mut rep),
         "C16" => c16::run(&mut rep),
         "C17" => c17::run(&mut rep),
         "C18" => c18::run(&mut rep),
@@ -91,6 +93,7 @@ pub fn child(args: &[String]) -> i32 {
     }
     match args[0].as_str() {
         "c02" => c02::child_main(&args[1..]),
+        "c15e2e" => c15::child_e2e(&args[1..]),
         "c18" => c18::child_main(&args[1..]),
         "c16" => c16::child_main(&args[1..]),
         "c08crash" => c08::child_crash(&args[1..]),
